@@ -48,6 +48,12 @@ broadcast_var_set (SF_PRIVATE *psf, const SF_BROADCAST_INFO * info, size_t datas
 	if (info == NULL)
 		return SF_FALSE ;
 
+	/* The size field itself must lie inside the caller's buffer before it is read. */
+	if (datasize < offsetof (SF_BROADCAST_INFO, coding_history))
+	{	psf->error = SFE_BAD_BROADCAST_INFO_SIZE ;
+		return SF_FALSE ;
+		} ;
+
 	if (bc_min_size (info) > datasize)
 	{	psf->error = SFE_BAD_BROADCAST_INFO_SIZE ;
 		return SF_FALSE ;
